@@ -173,7 +173,7 @@ def run_single(exe, seed, cfg=None, choices=None, default_choices=False, want_ch
 
 
 # ---- minimisation ------------------------------------------------------------------------------------------
-FAULT_OFF = [("lat", "0"), ("rdv", "0"), ("stall", "0"), ("speeds", "0"), ("bwait", "0"), ("early", "100"), ("rshuf", "0"), ("oshuf", "0"),
+FAULT_OFF = [("lat", "0"), ("rdv", "0"), ("lazy", "0"), ("stall", "0"), ("speeds", "0"), ("bwait", "0"), ("early", "100"), ("rshuf", "0"), ("oshuf", "0"),
              ("omp", "1"), ("pctd", "0"), ("work", "0"), ("pol", "0")]
 
 
